@@ -1,13 +1,15 @@
 #!/bin/bash
-# collect_r2.sh <Cxx>: copies /tmp/wt/<Cxx>r2/mutants/m1,m2 to /verif/seeded/<Cxx>-m3,-m4 and removes the worktree
-P=$1; i=3
-for m in /tmp/wt/${P}r2/mutants/m*; do
+# collect_r2.sh <Cxx> [suffix=r2]: copies /tmp/wt/<Cxx><suffix>/mutants/m* to the next free /verif/seeded/<Cxx>-m<N> and removes the worktree
+P=$1; S=${2:-r2}
+i=1; while [ -d /verif/seeded/$P-m$i ]; do i=$((i+1)); done
+for m in /tmp/wt/${P}${S}/mutants/m*; do
   [ -d "$m" ] || continue
   D=/verif/seeded/$P-m$i; mkdir -p $D
   cp $m/patch.diff $D/ 2>/dev/null
-  for f in $m/*.rs; do [ -f "$f" ] && cp "$f" $D/demo_$(basename $f | sed 's/^demo_\?//'); done
+  n=0
+  for f in $m/*.rs; do [ -f "$f" ] && { if [ $n -eq 0 ]; then cp "$f" $D/demo.rs; else cp "$f" $D/demo_$n.rs; fi; n=$((n+1)); }; done
   [ -f $m/README.md ] && cp $m/README.md $D/README.agent.md
-  ls $D | tr '\n' ' '; echo
+  echo "$D: $(ls $D | tr '\n' ' ')"
   i=$((i+1))
 done
-git -C /repo worktree remove --force /tmp/wt/${P}r2 2>/dev/null; rm -rf /tmp/wt/${P}r2
+git -C /repo worktree remove --force /tmp/wt/${P}${S} 2>/dev/null; rm -rf /tmp/wt/${P}${S}
